@@ -686,7 +686,7 @@ func genStmt(r *RNG, kw string, o histOpts, ts uint32) *hStmt {
 		if r.Chance(1, 3) {
 			tz := r.Bytes(r.Intn(6))
 			s.vars = append(s.vars, "5."+hx(append([]byte{byte(len(tz))}, tz...)))
-			s.vars = append(s.vars, fmt.Sprintf("%d.%s", r.Range(7, 20), hx(r.Bytes(r.Intn(9)))))
+			s.vars = append(s.vars, fmt.Sprintf("%d.%s", r.Pick(7, 8, 10, 11, 13, 20, 21, 128, 129, 130, 131, 200, 255), hx(r.Bytes(r.Intn(9)))))
 		}
 	}
 	// a status-variable block of 256 bytes and more (Q_UPDATED_DB_NAMES with several long schema names, an invoker, …
@@ -696,7 +696,7 @@ func genStmt(r *RNG, kw string, o histOpts, ts uint32) *hStmt {
 		if (kw == "begin" || kw == "commit" || kw == "rollback") && r.Bool() {
 			s.vars = append(s.vars, "0."+hx(r.Bytes(4)), "1."+hx(r.Bytes(8)))
 		}
-		s.vars = append(s.vars, fmt.Sprintf("%d.%s", r.Range(7, 20), hx(r.Bytes(r.Pick(243, 250, 255, 256, 300, 600, 5000)))))
+		s.vars = append(s.vars, fmt.Sprintf("%d.%s", r.Pick(7, 9, 12, 16, 20, 21, 64, 128, 129, 130, 131, 255), hx(r.Bytes(r.Pick(243, 250, 255, 256, 300, 600, 5000))))) // MySQL's codes up to 20, MariaDB's own 128..131, codes no server defines
 	}
 	return s
 }
